@@ -41,6 +41,7 @@ type PropHarness struct {
 	Portfolio    bool               `json:"portfolio,omitempty"`
 	SelectChoice bool               `json:"select_choice,omitempty"`
 	Solver       string             `json:"solver,omitempty"`
+	Preemptions  int                `json:"preemptions,omitempty"`
 	Tiers        map[string]TierCfg `json:"tiers"`
 	Doc          string             `json:"doc,omitempty"`
 	Replay       string             `json:"replay,omitempty"` // "native" (default) | "none"
@@ -284,7 +285,7 @@ func cmdRun(args []string) int {
 				name = fmt.Sprintf("%s#%d", ph.Name, vi)
 			}
 			h := &Harness{HarnessCfg: HarnessCfg{Name: name, Pkg: ph.Pkg, Func: ph.Func, Params: params,
-				MaxPaths: tc.MaxPaths, MaxSteps: tc.MaxSteps, TimeoutS: tc.TimeoutS, Portfolio: ph.Portfolio, SelectChoice: ph.SelectChoice, Solver: ph.Solver}, Fn: fn}
+				MaxPaths: tc.MaxPaths, MaxSteps: tc.MaxSteps, TimeoutS: tc.TimeoutS, Portfolio: ph.Portfolio, SelectChoice: ph.SelectChoice, Solver: ph.Solver, Preemptions: ph.Preemptions}, Fn: fn}
 			if h.MaxPaths == 0 {
 				h.MaxPaths = 20000
 			}
@@ -301,7 +302,6 @@ func cmdRun(args []string) int {
 	}
 	return report(&cfg, *tier, seed, results, hcfgs, inconclusive, loadS, time.Since(t0).Seconds(), *noReplay)
 }
-
 
 // cmdTracePath re-executes the single path of a recorded counterexample with call/log tracing.
 func cmdTracePath(args []string) int {
@@ -336,7 +336,7 @@ func cmdTracePath(args []string) int {
 		eng.workers = 1
 		eng.traceOn = true
 		fn := eng.pkgByPath[ph.Pkg].Func(ph.Func)
-		h := &Harness{HarnessCfg: HarnessCfg{Name: cex.Harness, Pkg: ph.Pkg, Func: ph.Func, Params: cex.Params, MaxPaths: 1, MaxSteps: 5000000, SelectChoice: ph.SelectChoice}, Fn: fn}
+		h := &Harness{HarnessCfg: HarnessCfg{Name: cex.Harness, Pkg: ph.Pkg, Func: ph.Func, Params: cex.Params, MaxPaths: 1, MaxSteps: 5000000, SelectChoice: ph.SelectChoice, Preemptions: ph.Preemptions}, Fn: fn}
 		if ph.Arith == "int" {
 			h.Arith = ModeInt
 		}
